@@ -546,4 +546,110 @@ theorem tmSpec_ok : TmSpec tmSpec := by
   apply Nat.mod_eq_of_lt
   apply mpW_lt n a b ha hb
   rw [hbl]; exact hnB
+/-! ### the header formula (sum over index pairs) = the row form -/
+theorem sum_range_succ' (f : Nat → Nat) (n : Nat) :
+    ((List.range (n + 1)).map f).sum = f 0 + ((List.range n).map fun j => f (j + 1)).sum := by
+  rw [List.range_succ_eq_map]; simp [List.map_map, Function.comp_def]
+
+theorem sum_map_add' (l : List Nat) (f g : Nat → Nat) :
+    (l.map fun x => f x + g x).sum = (l.map f).sum + (l.map g).sum := by
+  induction l with
+  | nil => simp
+  | cons x xs ih => simp only [List.map_cons, List.sum_cons, ih]; omega
+
+theorem sum_map_mul' (l : List Nat) (c : Nat) (f : Nat → Nat) :
+    (l.map fun x => c * f x).sum = c * (l.map f).sum := by
+  induction l with
+  | nil => simp
+  | cons x xs ih => simp only [List.map_cons, List.sum_cons, ih]; ring
+
+theorem sum_map_congr' (l : List Nat) (f g : Nat → Nat) (h : ∀ x, f x = g x) : (l.map f).sum = (l.map g).sum := by
+  have : f = g := funext h
+  rw [this]
+
+theorem sum_map_zero' (l : List Nat) : (l.map fun _ => 0).sum = 0 := by
+  induction l with
+  | nil => simp
+  | cons x xs ih => simp [ih]
+
+/-- the window {a + s, rn} as a sum over the indices s ≤ i < s + rn -/
+theorem win_sum : ∀ (a : List Nat) (s rn : Nat),
+    ((List.range a.length).map fun i => if s ≤ i ∧ i < s + rn then a.getD i 0 * B ^ (i - s) else 0).sum = val (win a s rn)
+  | [], s, rn => by simp [win]
+  | x :: xs, 0, 0 => by
+    simp only [win, List.drop_zero, List.take_zero, val_nil]
+    rw [sum_map_congr' _ _ (fun _ => 0) (fun i => by simp)]
+    exact sum_map_zero' _
+  | x :: xs, 0, r + 1 => by
+    rw [List.length_cons, sum_range_succ']
+    have ih := win_sum xs 0 r
+    simp only [win, List.drop_zero] at ih ⊢
+    simp only [List.take_succ_cons, val_cons, ← ih, ← sum_map_mul']
+    simp only [Nat.zero_le, true_and, Nat.zero_add, Nat.sub_zero, List.getD_cons_zero, List.getD_cons_succ, pow_zero,
+      Nat.mul_one, Nat.succ_lt_succ_iff, Nat.lt_succ_iff, if_true]
+    congr 1
+    apply sum_map_congr'
+    intro i
+    split
+    · rw [pow_succ]; ring
+    · simp
+  | x :: xs, s + 1, rn => by
+    rw [List.length_cons, sum_range_succ']
+    have ih := win_sum xs s rn
+    simp only [win, List.drop_succ_cons] at ih ⊢
+    rw [← ih]
+    simp only [Nat.le_zero, Nat.succ_ne_zero, false_and, if_false, Nat.zero_add, List.getD_cons_succ]
+    apply sum_map_congr'
+    intro i
+    have e1 : (s + 1 ≤ i + 1 ∧ i + 1 < s + 1 + rn) ↔ (s ≤ i ∧ i < s + rn) := by omega
+    have e2 : i + 1 - (s + 1) = i - s := by omega
+    simp only [e1, e2]
+
+
+theorem sum_map_congr_mem (l : List Nat) (f g : Nat → Nat) (h : ∀ x ∈ l, f x = g x) : (l.map f).sum = (l.map g).sum := by
+  rw [List.map_congr_left h]
+
+/-- the pair sum with the diagonal band n-1 ≤ i+j < n-1+rn (rn diagonals) -/
+def pairsR (rn : Nat) (a b : List Nat) : Nat :=
+  ((List.range a.length).map fun i => ((List.range b.length).map fun j =>
+      if b.length - 1 ≤ i + j ∧ i + j < b.length - 1 + rn then a.getD i 0 * b.getD j 0 * B ^ (i + j - (b.length - 1)) else 0).sum).sum
+
+theorem pairsR_eq (rn : Nat) (a : List Nat) : ∀ b : List Nat, pairsR rn a b = mpW rn a b
+  | [] => by
+    simp only [pairsR, List.length_nil, List.range_zero, List.map_nil, List.sum_nil, mpW]
+    exact sum_map_zero' _
+  | b0 :: bs => by
+    have ih := pairsR_eq rn a bs
+    rw [mpW, ← ih, ← win_sum a bs.length rn, ← sum_map_mul']
+    simp only [pairsR, List.length_cons, Nat.add_sub_cancel]
+    rw [← sum_map_add']
+    apply sum_map_congr'
+    intro i
+    rw [sum_range_succ']
+    congr 1
+    · simp only [Nat.add_zero, List.getD_cons_zero]
+      split
+      · ring
+      · simp
+    · apply sum_map_congr_mem
+      intro j hj
+      have hj' : j < bs.length := List.mem_range.mp hj
+      have e1 : (bs.length ≤ i + (j + 1) ∧ i + (j + 1) < bs.length + rn) ↔
+          (bs.length - 1 ≤ i + j ∧ i + j < bs.length - 1 + rn) := by omega
+      have e2 : i + (j + 1) - bs.length = i + j - (bs.length - 1) := by omega
+      simp only [e1, e2, List.getD_cons_succ]
+
+/-- the header formula of mulmid.c (sum over index pairs) is the row form used by the theorems -/
+theorem mpPairs_eq (a b : List Nat) (hbn : 1 ≤ b.length) (hab : b.length ≤ a.length) :
+    mpPairs a b = mpW (a.length - b.length + 1) a b := by
+  rw [← pairsR_eq]
+  simp only [mpPairs, pairsR]
+  apply sum_map_congr'
+  intro i
+  apply sum_map_congr'
+  intro j
+  have e1 : (b.length - 1 ≤ i + j ∧ i + j ≤ a.length - 1) ↔
+      (b.length - 1 ≤ i + j ∧ i + j < b.length - 1 + (a.length - b.length + 1)) := by omega
+  simp only [e1]
+
 end Mpir.MulMid
